@@ -232,23 +232,33 @@ class C08:
         # callers bind the right parameters; every evaluated clip is collected -- read off the element-wise view of the list
         # of clip evaluations that _evaluate_clips returns (filled by a loop or built by comprehensions alike)
         from sa import seqview
-        ev = ctx.summ.of_func(DET, "_evaluate_clips")
-        site = f"{self.file}:{ev.node.lineno} _evaluate_clips"
+        from .common import helper_or_caller
+        ev, written_out = helper_or_caller(ctx, DET, "_evaluate_clips")
+        evname = ev.node.name
+        site = f"{self.file}:{ev.node.lineno} {evname}"
         ec = ctx.summ.of_func(DET, "evaluate_clip")
         EC = ("global", f"{DET}:evaluate_clip", "func")
         IT = ("global", f"{COMMON}:iterate_over_valid_clips", "func")
         rets = ev.raw_returns
-        if len(rets) != 1 or rets[0].term[0] != "tuple" or not rets[0].term[1]:
+        if written_out:
+            # the helper's loop stands in the task function itself: the list of clip evaluations is what Evaluation(...) receives
+            evs_ = [x for r in rets for x in walk(r.term) if x[0] == "call" and x[1][0] == "global" and x[1][1].endswith(":Evaluation")]
+            clips_list = callkw(evs_[0]).get("clip_evaluations") if len(evs_) == 1 else None
+            if clips_list is None:
+                ctx.undec("R08.1", site, "Evaluation(clip_evaluations=...) not found in the task function")
+                return
+        elif len(rets) != 1 or rets[0].term[0] != "tuple" or not rets[0].term[1]:
             ctx.undec("R08.1", site, "does not return a tuple whose first component is the list of clip evaluations")
             return
-        clips_list = rets[0].term[1][0]
+        else:
+            clips_list = rets[0].term[1][0]
         I = ("param", "__i__")
         item = seqview.item(clips_list, I)
         call = None
         if item is not None and item[0] == "sub" and item[2] == ("const", 2) and item[1][0] == "call" and item[1][1] == EC:
             call = item[1]
         if call is None:
-            ctx.bad("R08.1", self.file, "_evaluate_clips", "evaluated_clips.append(evaluated_clip)",
+            ctx.bad("R08.1", self.file, evname, "evaluated_clips.append(evaluated_clip)",
                     f"not every evaluated clip is collected unconditionally (the i-th collected element is {show(item)[:80] if item else 'filtered / undetermined'})",
                     ev.node.lineno)
             return
@@ -258,18 +268,18 @@ class C08:
         a_i, p_i = b.get("clip_annotations"), b.get("clip_predictions")
         if a_i is not None and p_i is not None and a_i[0] == "sub" and p_i[0] == "sub" and a_i[1] == p_i[1] and a_i[1][0] == "sub" and a_i[1][2] == I:
             src = a_i[1][1]
-        if src is not None and a_i[2] == ("const", 0) and p_i[2] == ("const", 1) and b.get("encoder") == ("param", "encoder") and src[0] == "call" and src[1] == IT:
+        if src is not None and a_i[2] == ("const", 0) and p_i[2] == ("const", 1) and b.get("encoder") in (("param", "encoder"), ("call", ("global", f"{ENC}:create_tag_encoder", "func"), (("param", "tags"),), ())) and src[0] == "call" and src[1] == IT:
             ctx.ok("R08.1", site, "evaluate_clip(clip_annotations=annotations, clip_predictions=predictions) for every yielded pair")
             bb, _, _, _ = bind_args(src, s.params)
             if bb.get("clip_predictions") == ("param", "clip_predictions") and bb.get("clip_annotations") == ("param", "clip_annotations"):
                 ctx.ok("R08.1", site, "predictions/annotations passed to the matching parameters")
             else:
-                ctx.bad("R08.1", self.file, "_evaluate_clips", f"iterate_over_valid_clips({show(src)[:80]})",
+                ctx.bad("R08.1", self.file, evname, f"iterate_over_valid_clips({show(src)[:80]})",
                         "clip predictions and clip annotations are passed to the wrong parameters", ev.node.lineno)
         elif src is None or not (src[0] == "call" and src[1] == IT):
             ctx.undec("R08.1", site, f"loop over iterate_over_valid_clips not found (pairs come from {show(src)[:60] if src else '?'})")
         else:
-            ctx.bad("R08.1", self.file, "_evaluate_clips", f"evaluate_clip({show(call)[:80]})",
+            ctx.bad("R08.1", self.file, evname, f"evaluate_clip({show(call)[:80]})",
                     "the yielded (annotations, predictions) pair is bound to the wrong parameters of evaluate_clip", ev.node.lineno)
 
     # ------------------------------------------------------------------ R08.2 / R08.3 / R08.4 / R08.7
@@ -621,6 +631,9 @@ class C08:
     def check_means(self, s_clip: Summary, apps):
         ctx = self.ctx
         mean = ("global", f"{DET}:_mean", "func")
+        # a private averaging helper written out at its call sites: the call-shape tests below do not apply, the scenario
+        # reading further down (evalflow.check_mean) decides the same clauses on the written-out expression
+        has_mean = "_mean" in ctx.index.module(DET).defs
         site = f"{self.file}:{s_clip.node.lineno} evaluate_clip"
         CE = ("global", "soundevent.data.clip_evaluations:ClipEvaluation", "class")
         ce = [x for r in s_clip.returns for x in walk(r.term) if x[0] == "call" and x[1] == CE]
@@ -653,7 +666,7 @@ class C08:
                             f"the mean over exactly the matches handed to ClipEvaluation", s_clip.node.lineno,
                             witness={"matches_appends": len(apps), "score_appends": len(sapps)})
                     good = None
-            if good is None:
+            if good is None or (not has_mean and not (sc is not None and sc[0] == "call" and sc[1] == mean)):
                 pass
             elif good and kw.get("matches") == lst:
                 ctx.ok("R08.6", site, "clip score = _mean(score of every appended match); matches=that list")
@@ -675,7 +688,13 @@ class C08:
             sc, clips = kw.get("score"), kw.get("clip_evaluations")
             good = (sc is not None and sc[0] == "call" and sc[1] == mean and len(sc[2]) == 1 and sc[2][0][0] == "comp"
                     and sc[2][0][3][0][1] == clips and not sc[2][0][3][0][2] and sc[2][0][2] == ("attr", ("elem", sc[2][0][3][0][0]), "score"))
-            if good and kw.get("evaluation_task") == ("const", "sound_event_detection"):
+            if not has_mean and not (sc is not None and sc[0] == "call" and sc[1] == mean):
+                if kw.get("evaluation_task") == ("const", "sound_event_detection"):
+                    ctx.ok("R08.6", site, "task label correct (the overall score is read by scenario below)")
+                else:
+                    ctx.bad("R08.6", self.file, "sound_event_detection", f"evaluation_task={show(kw.get('evaluation_task', NONE))[:40]}",
+                            "the evaluation must be labelled 'sound_event_detection'", s.node.lineno)
+            elif good and kw.get("evaluation_task") == ("const", "sound_event_detection"):
                 ctx.ok("R08.6", site, "overall score = _mean(score of every clip evaluation returned); task label correct")
             else:
                 ctx.bad("R08.6", self.file, "sound_event_detection", f"Evaluation(score={show(sc)[:60] if sc else '-'})",
@@ -694,6 +713,8 @@ class C08:
             if kw.get("score") is not None and kw.get("clip_evaluations") is not None:
                 ef.check_mean(ctx, "R08.6", s, kw["score"], kw["clip_evaluations"], "overall score", "sound_event_detection", zero_when_empty=True)
         # _mean itself
+        if not has_mean:
+            return
         ms = ctx.summ.of_func(DET, "_mean")
         site = f"{self.file}:{ms.node.lineno} _mean"
         p = ("param", ms.params[0])
